@@ -3,6 +3,7 @@
 package dhcp6
 
 import (
+	"net"
 	"testing"
 )
 
@@ -55,6 +56,34 @@ func c07DHCP6(entry string, n []uint64, f []string) string {
 			return "err 1"
 		}
 		return c07Ok(c07Msg6(m)...)
+	case "bldd6": // Response.Serialize fed to ParseMessage; argument layout: see run_build entry 84 in RoundTrip.v
+		r := &Response{MsgType: MessageType(c07Num(n, 0)), ClientID: c07Arg(f, 1), ServerID: c07Arg(f, 2)}
+		copy(r.TransactionID[:], c07Arg(f, 0))
+		if c07Num(n, 1) != 0 {
+			r.IANA = &IANAOption{IAID: uint32(c07Num(n, 2)), T1: uint32(c07Num(n, 3)), T2: uint32(c07Num(n, 4)), Address: net.IP(c07Arg(f, 3)),
+				PreferredTime: uint32(c07Num(n, 5)), ValidTime: uint32(c07Num(n, 6))}
+		}
+		if c07Num(n, 7) != 0 {
+			r.IAPD = &IAPDOption{IAID: uint32(c07Num(n, 8)), T1: uint32(c07Num(n, 9)), T2: uint32(c07Num(n, 10)), Prefix: net.IP(c07Arg(f, 4)),
+				PreferredTime: uint32(c07Num(n, 11)), ValidTime: uint32(c07Num(n, 12)), PrefixLen: uint8(c07Num(n, 13))}
+		}
+		if c07Num(n, 14) != 0 {
+			r.StatusCode = &StatusCodeOption{Code: uint16(c07Num(n, 15)), Message: string(c07Arg(f, 5))}
+		}
+		nd := int(c07Num(n, 16))
+		for i := 0; i < nd; i++ {
+			r.DNS = append(r.DNS, net.IP(c07Arg(f, 6+i)))
+		}
+		for i := 17; i < len(n); i++ {
+			r.Extras = append(r.Extras, ExtraOption{Code: uint16(n[i]), Data: c07Arg(f, 6+nd+i-17)})
+		}
+		out := r.Serialize()
+		out = append(make([]byte, 0, len(out)), out...)
+		m, err := ParseMessage(out)
+		if err != nil {
+			return "err 1"
+		}
+		return c07Ok(append([]string{c07TB(out)}, c07Msg6(m)...)...)
 	case "d6relay":
 		m, ri := UnwrapRelay(data)
 		toks := c07Msg6(m)
